@@ -99,11 +99,17 @@ SCRIPT = textwrap.dedent(
         if reg_kind == "empty": kw["registry"] = Registry()
         elif reg_kind == "stored":
             r = Registry(); r.add(nodes[0], Store("s0")); kw["registry"] = r
-        try: v = uberjob.run(plan, **kw)
-        except BaseException as e: problems.append(f"acyclic chain of {chain} (registry={reg_kind}, workers={workers}, {sched}) was rejected: {e!r}"); return
+        res = {}
+        def go():
+            try: res["v"] = uberjob.run(plan, **kw)
+            except BaseException as e: res["e"] = e
+        t = threading.Thread(target=go, daemon=True); t.start(); t.join(30)
+        if t.is_alive(): problems.append(f"acyclic chain of {chain} (registry={reg_kind}, workers={workers}, {sched}): run hangs"); return
+        if "e" in res: problems.append(f"acyclic chain of {chain} (registry={reg_kind}, workers={workers}, {sched}) was rejected: {res['e']!r}"); return
         want = 1 if reg_kind == "stored" else None
         if [e for e in events if e[0] == "start"] != [("start", f"n{i}") for i in range(chain)]: problems.append(f"acyclic chain of {chain}: executed {events}")
     for chain, workers, sched, reg_kind in itertools.product((1, 2, 4), (1, 3), ("default", "random"), ("none", "empty", "stored")):
+        if problems: break          # one failing input is enough (a hanging run costs its whole watchdog)
         acyclic(chain, workers, sched, reg_kind); n += 1
     for p in problems[:5]: print("VIOLATED C07", p)
     print(f"{n} cyclic runs, {len(problems)} problem(s)"); sys.stdout.flush(); os._exit(1 if problems else 0)
@@ -112,9 +118,10 @@ SCRIPT = textwrap.dedent(
 
 
 def replay(ob=None):
-    p = subprocess.run(["/venv/bin/python", "-c", SCRIPT], env=dict(os.environ, PYTHONPATH=REPO_SRC), capture_output=True, text=True, timeout=900)
-    out = p.stdout[-3000:] + p.stderr[-1500:]
-    return {"reproduced": p.returncode == 1, "detail": out, "script": SCRIPT, "rc": p.returncode}
+    from ujvc.units import run_native
+
+    r = run_native(SCRIPT, 150)
+    return {"reproduced": r["rc"] == 1 or r["timed_out"], "detail": r["out"], "script": SCRIPT, "rc": 1 if r["timed_out"] else r["rc"]}
 
 
 def _cycles(ctx):
